@@ -41,12 +41,23 @@ class Header(_Header):
         self.typeid = v
         self.critical = bool(v & 0x80)
 
+    @property
+    def llen(self):
+        # RFC 4880 5.2.3.1 allows a subpacket length to be written in a longer form than necessary (two octets up to 16319,
+        # five octets for anything): a subpacket that was read keeps the form it came in as long as its length still fits
+        if self._llen_read == 5 or (self._llen_read == 2 and 192 <= self.length <= 16319):
+            return self._llen_read
+        return 1 if self.length < 192 else 2 if self.length < 8384 else 5
+
     def __init__(self):
         super(Header, self).__init__()
         self._typeid = -1
         self.critical = False
+        self._llen_read = None
 
     def parse(self, packet):
+        self._llen_read = 1 if packet[0] < 192 else 2 if packet[0] < 255 else 5
+
         if 192 <= packet[0] < 255:
             # RFC 4880 5.2.3.1: subpacket lengths have no partial-length form; every first octet
             # from 192 to 254 starts a two-octet length
@@ -63,7 +74,13 @@ class Header(_Header):
         return self.llen + 1
 
     def __bytearray__(self):
-        _bytes = bytearray(self.encode_length(self.length))
+        llen = self.llen
+        if llen == 1:
+            _bytes = bytearray([self.length])
+        elif llen == 2:
+            _bytes = bytearray([((self.length - 192) >> 8) + 192, (self.length - 192) & 0xFF])
+        else:
+            _bytes = bytearray(b'\xFF' + self.int_to_bytes(self.length, 4))
         _bytes += self.int_to_bytes((int(self.critical) << 7) + self.typeid)
         return _bytes
 
